@@ -35,15 +35,15 @@
 void verif_nr_fields(void *, size_t *, size_t *, size_t *);
 void verif_nw_fields(void *, size_t *, size_t *, size_t *);
 
-static const struct { size_t buflen, min; } RW[] = { {1, 1}, {3, 1}, {4, 2}, {4, 4}, {6, 3}, {5, 0} };
-#define NRW 6
+static const struct { size_t buflen, min; } RW[] = { {1, 1}, {3, 1}, {4, 2}, {4, 4}, {6, 3}, {5, 0}, {8, 8}, {2, 1}, {7, 5} };
+static int NRW = 6, max_req = 2, max_len = 7;	/* thorough: 9 request shapes, 3 requests per execution, scripts up to 11 bytes */
 static int op_bound = 5, sub = 0;	/* 0 read 1 write 2 connect 3 accept 4 duplex */
 static const char * subname[] = { "read", "write", "connect", "accept", "duplex" };
 
 #define FAIL(sig, ...) mc_fail("C06:" sig, __VA_ARGS__)
 
 static uint8_t stream[16];		/* peer's bytes: position determined */
-static uint8_t ubuf[32];		/* user buffer, canaries around [8, 8+buflen) */
+static uint8_t ubuf[40];		/* user buffer, canaries around [8, 8+buflen) */
 #define UB 8
 static int fd = -1, cfg, slen, send_;
 static int ops, nreq, active, cur_id, callbacks, timer_armed, in_timer_cancel;
@@ -165,7 +165,7 @@ rw_body(void)
 	ops = nreq = active = callbacks = timer_armed = nresults = 0; cookie = timer_cookie = NULL; cur_id = 0; calls_at_idle = 0; pos_at_start = 0;
 	memset(cancelled_ids, 0, sizeof(cancelled_ids));
 	cfg = mc_pick(NRW, "request(buflen,min)");
-	if (sub == 0) { slen = mc_pick(8, "stream-length"); send_ = mc_pick(3, "stream-end"); }
+	if (sub == 0) { slen = mc_pick(max_len + 1, "stream-length"); send_ = mc_pick(3, "stream-end"); }
 	else { slen = 0; send_ = FK_END_NONE; }
 	fd = fk_stream_new(stream, (size_t)slen, send_);
 	mc_note("%s: buflen=%zu min=%zu%s", subname[sub], RW[cfg].buflen, RW[cfg].min, "");
@@ -177,7 +177,7 @@ rw_body(void)
 		rw_state(0, 0);
 		if (ops >= op_bound) break;
 		menu[nm++] = 0;				/* run */
-		if (!active && nreq < 2) menu[nm++] = 1;	/* start request */
+		if (!active && nreq < max_req) menu[nm++] = 1;	/* start request */
 		if (active) menu[nm++] = 2;		/* cancel from main */
 		if (active && !timer_armed) menu[nm++] = 3;	/* arm a zero timer whose callback cancels */
 		menu[nm++] = 4;				/* end */
@@ -528,14 +528,16 @@ main(int argc, char ** argv)
 		if (!strcmp(argv[i], "--sub") && i + 1 < argc) { int k; i++; for (k = 0; k < 5; k++) if (!strcmp(argv[i], subname[k])) sub = k; }
 		else if (!strcmp(argv[i], "--ops") && i + 1 < argc) op_bound = atoi(argv[++i]);
 		else if (!strcmp(argv[i], "--dev") && i + 1 < argc) dev = atoi(argv[++i]);
+		else if (!strcmp(argv[i], "--wide")) { NRW = 9; max_req = 3; max_len = 11; }
 	}
 	if (vf_replay) {
+		if (strstr(vf_replay, "\"--wide\"")) { NRW = 9; max_req = 3; max_len = 11; }
 		if ((p = strstr(vf_replay, "\"--sub\",\"")) != NULL) { int k; for (k = 4; k >= 0; k--) if (!strncmp(p + 9, subname[k], strlen(subname[k]))) { sub = k; break; } }
 		if ((p = strstr(vf_replay, "\"--ops\",\"")) != NULL) op_bound = atoi(p + 9);
 	}
 	memset(&cfgm, 0, sizeof(cfgm));
 	cfgm.name = subname[sub]; cfgm.body = sub <= 1 ? rw_body : sub == 2 ? conn_body : sub == 3 ? acc_body : dx_body; cfgm.teardown = teardown; cfgm.dev_bound = dev; cfgm.table_bits = 24;
-	snprintf(args, sizeof(args), "[\"--sub\",\"%s\",\"--ops\",\"%d\"]", subname[sub], op_bound);
+	snprintf(args, sizeof(args), "[\"--sub\",\"%s\",\"--ops\",\"%d\"%s]", subname[sub], op_bound, NRW == 9 ? ",\"--wide\"" : "");
 	cfgm.args_json = args;
 	(void)rw_blocked;
 	vf_info("bounds", "sub-driver %s: <=%d program steps, <=%d environment deviations", subname[sub], op_bound, dev);
